@@ -406,6 +406,9 @@ def hostile_cases():
               ("import-dotted-user-module", "import c11_canary_pkg.patterns\ny = 1\n"), ("import-user-package", "import c11_canary_pkg\ny = 1\n"),
               ("import-user-package-as", "from c11_canary_pkg import patterns as p\ny = 1\n"), ("import-inside-function", "def f():\n    import c11_canary_pkg.patterns\n    return 1\ny = f()\n"),
               ("import-stdlib-dotted", "import wsgiref.util\nimport xml.dom.minidom\ny = 1\n"), ("import-relative", "from . import c11_canary_pkg\ny = 1\n"),
+              ("lone-surrogate-in-string", "x = '\ud800'\n"), ("lone-surrogate-in-call", "from Reduino.Communication import SerialMonitor\nm = SerialMonitor(9600)\nm.write('a\udcffb')\n"),
+              ("lone-surrogate-in-identifier-position", "y = 1\n\udc80 = 2\n"), ("lone-surrogate-in-device-argument", "from Reduino.Actuators import Led\nled = Led(13)\nled.blink(\ud800)\n"),
+              ("lone-surrogate-in-comment", "x = 1  # \udc80 note\ny = x + 1\n"),
               ("bare-except", "x = 1\ntry:\n    x = 2\nexcept:\n    x = 3\n"), ("bare-except-in-main-loop", "x = 1\nwhile True:\n    try:\n        x = 2\n    except:\n        x = 3\n"),
               ("bare-except-in-helper", "def f():\n    try:\n        return 1\n    except:\n        return 2\ny = f()\n"), ("named-then-bare-except", "x = 1\ntry:\n    x = 2\nexcept ValueError:\n    x = 3\nexcept:\n    x = 4\n"),
               ("except-tuple", "x = 1\ntry:\n    x = 2\nexcept (ValueError, TypeError):\n    x = 3\n"), ("except-as", "x = 1\ntry:\n    x = 2\nexcept Exception as e:\n    x = 3\n"),
